@@ -11,12 +11,13 @@ CASE_TYPE = "C39_case"
 HARNESS = "c39"
 KNOWN = {1: "C39-int-from-hashed-type", 2: "C39-nested-types-unchecked",
          3: "C39-nested-appendable-dheader-ignored", 4: "C39-member-id-u16",
-         5: "C39-todo-type-identifier", 6: "C39-optional-mismatch"}
+         5: "C39-todo-type-identifier", 6: "C39-optional-mismatch", 7: "C39-typed-sample-none"}
 RULE = ("one `ev` case = a reader type T1 and a writer type T2 built at run time (DynamicTypeBuilderFactory), the "
         "real CompleteTypeObject::from + is_assignable_from_w_type_consistency decision for (T1 := T2) under a "
         "TypeConsistencyEnforcementQosPolicy, a value serialized by the real serializer with T2 and deserialized by the "
-        "real deserializer with T1; one `as` case = the decision on two hand-built structure type objects (hostile "
-        "flags / type identifiers); type objects, decision, bytes and decoded value are compared with the Coq model "
+        "real deserializer with T1; one `ty` case = the same on a catalogue of compile-time #[derive(DdsType)] type pairs "
+        "plus the typed sample Reader::create_sample builds from the decoded data; one `as` case = the decision on two "
+        "hand-built structure type objects (hostile flags / type identifiers); type objects, decision, bytes and decoded value are compared with the Coq model "
         "and the C39 oracle is applied to the implementation's outputs; distinct = distinct input line; non-trivial = "
         "`ev` with T1 != T2 that the code declares assignable, or an `as`/`ev` case it rejects")
 TRUSTED = ["theories/Xcdr/AssignModel.v is a hand transcription of TypeIdentifier::/CompleteTypeObject::"
@@ -404,6 +405,40 @@ def nested_witnesses():
     return out
 
 
+I32 = ("p", "i32")
+TY_TYPES = {
+    "A1": ("S", "A", 1, [(0, 0, 0, I32)]),
+    "A2": ("S", "A", 2, [(0, 0, 0, I32), (1, 0, 1, I32)]),
+    "A3": ("S", "A", 3, [(0, 0, 0, I32), (1, 8, 1, I32)]),      # m1: try_construct = USE_DEFAULT
+    "M1": ("S", "M", 1, [(1, 0, 0, I32)]),
+    "M2": ("S", "M", 2, [(1, 0, 0, I32), (2, 0, 1, I32)]),
+    "M3": ("S", "M", 3, [(1, 0, 0, I32), (2, 1, 1, I32)]),      # m1: optional
+}
+# k -> (writer, reader) of the compile-time catalogue in harness/src/bin/c39.rs
+TY_PAIRS = {0: ("A2", "A1"), 1: ("A1", "A2"), 2: ("A1", "A3"), 3: ("M1", "M2"), 4: ("M2", "M1"), 5: ("M1", "M3"),
+            6: ("A2", "A2"), 7: ("M3", "M2")}
+
+
+def ty_value(k, vals):
+    w = TY_TYPES[TY_PAIRS[k][0]]
+    d = []
+    for i, (mid, flags, name, mt) in enumerate(w[3]):
+        if flags & 1 and vals[i] == 0:
+            continue                      # the optional member is None
+        d.append((mid, ("p", "i32", vals[i])))
+    return ("d", sorted(d, key=lambda x: x[0]))
+
+
+def ty_cases(r, n):
+    out = []
+    for i in range(n):
+        k = i % 8
+        ver = 2 if TY_PAIRS[k][0][0] == "M" or r.random() < 0.6 else 1
+        out.append(("ty", k, ver, r.choice(["le", "be"]), 3 if r.random() < 0.7 else gen_tc(r),
+                    [rprim(r, "i32"), rprim(r, "i32")]))
+    return out
+
+
 def corpus():
     P = lambda k: ("p", k)
     S = lambda ext, tn, ms: ("S", ext, tn, ms)
@@ -430,11 +465,14 @@ def corpus():
     # empty appendable structures: equal / different names
     out.append(("as", 3, (2, 1, []), (2, 1, [])))
     out.append(("as", 3, (2, 1, []), (2, 2, [])))
+    # compile-time (derive) types: the typed sample of an extended reader
+    for k in range(8):
+        out.append(("ty", k, 2, "le", 3, [5, 6]))
     return out
 
 
 def gen(r, tier):
-    n = {"quick": 2600, "search": 9000, "thorough": 40000}[tier]
+    n = {"quick": 2400, "search": 9000, "thorough": 40000}[tier]
     cases = []
     # systematic: the whole TypeIdentifier x TypeIdentifier table through a one-member FINAL structure
     reps = [(t,) for t in TID_SIMPLE] + [("s8s", 0), ("s8s", 5), ("s8l", 300), ("s8l", 2**32 - 1), ("s16s", 5),
@@ -445,19 +483,20 @@ def gen(r, tier):
         for b in reps:
             tc = 3 if (a, b) != (a, a) else 0
             cases.append(("as", r.choice([3, 3, 0]), (1, 1, [(0, 1, 0, a)]), (1, 2, [(0, 1, 0, b)])))
+    cases += ty_cases(r, {"quick": 48, "search": 96, "thorough": 400}[tier])
     while len(cases) < n:
         k = r.random()
-        if k < 0.62:
+        if k < 0.74:
             ext = r.choice(["A", "A", "M", "M", "F"])
             t = gen_struct(r, ext, big_ids=(r.random() < 0.08))
             q = r.random()
             if q < 0.08:
                 cases.append(ev_case(r, t, t))
-            elif q < 0.62:
+            elif q < 0.55:
                 u = evolve_ok(r, t)
                 t1, t2 = (t, u) if r.random() < 0.5 else (u, t)
                 cases.append(ev_case(r, t1, t2))
-            elif q < 0.72:
+            elif q < 0.63:
                 u = evolve_ok(r, evolve_ok(r, t))
                 t1, t2 = (t, u) if r.random() < 0.5 else (u, t)
                 cases.append(ev_case(r, t1, t2))
@@ -468,7 +507,7 @@ def gen(r, tier):
                 t1, t2 = (t, u) if r.random() < 0.5 else (u, t)
                 # optional members: only XCDR2, and the codec sees them; keep them rare
                 cases.append(ev_case(r, t1, t2))
-        elif k < 0.66:
+        elif k < 0.78:
             w = r.choice(nested_witnesses())
             cases.append(("ev", w[1], r.choice(["le", "be"]), gen_tc(r), w[4], w[5], gen_value(r, w[5])))
         else:
@@ -533,6 +572,8 @@ def cto_text(c):
 
 
 def case_line(c):
+    if c[0] == "ty":
+        return "ty %d %d %s %d | %s" % (c[1], c[2], c[3], c[4], " ".join(str(x) for x in c[5]))
     if c[0] == "ev":
         _, ver, end, tc, t1, t2, v = c
         return "ev %d %s %d | %s | %s | %s" % (ver, end, tc, type_text(t1), type_text(t2), value_text(v))
@@ -647,6 +688,12 @@ def parse_line(line):
     if op == "as":
         tc = tk.int()
         return ("as", tc, parse_cto(Toks(parts[1])), parse_cto(Toks(parts[2])))
+    if op == "ty":
+        k = tk.int()
+        ver = tk.int()
+        end = tk.next()
+        tc = tk.int()
+        return ("ty", k, ver, end, tc, [int(x) for x in parts[1].split()])
     return None
 
 # ------------------------------------------------------------------------------- Coq terms
@@ -748,7 +795,24 @@ def case_term(c, out):
             if len(p) != 2 or p[0] != "A" or coq_resb(p[1]) is None:
                 return None
             return "mkC39 (As %s %s %s) (OAs %s)" % (coq_tc(c[1]), coq_cto(c[2]), coq_cto(c[3]), coq_resb(p[1]))
-        _, ver, end, tc, t1, t2, v = c
+        typed = None
+        if c[0] == "ty":
+            _, k, ver, end, tc, vals = c
+            t2, t1 = TY_TYPES[TY_PAIRS[k][0]], TY_TYPES[TY_PAIRS[k][1]]
+            v = ty_value(k, vals)
+            if " ; TY " not in out:
+                return None
+            out, ty_out = out.rsplit(" ; TY ", 1)
+            tk = Toks(ty_out)
+            kind = tk.next()
+            if kind == "some":
+                typed = "(Some [%s])" % "; ".join("(%s, %s)" % (cz(i), coq_val(x)) for i, x in parse_data(tk))
+            elif kind in ("none", "na"):
+                typed = "None"
+            else:
+                return None
+        else:
+            _, ver, end, tc, t1, t2, v = c
         if not out.startswith("A "):
             return None
         head, rest = out.split(" C ", 1)
@@ -772,6 +836,10 @@ def case_term(c, out):
             ser = "(SFail (Panic 0))"
         else:
             return None
+        if typed is not None:
+            return "mkC39 (Ty %s %s %s %s %s %s) (OTy %s %s %s %s %s)" % (
+                "V%d" % ver, end.upper(), coq_tc(tc), coq_adesc(t1), coq_adesc(t2), coq_val(v),
+                a, coq_cto(c1), coq_cto(c2), ser, typed)
         return "mkC39 (Ev %s %s %s %s %s %s) (OEv %s %s %s %s)" % (
             "V%d" % ver, end.upper(), coq_tc(tc), coq_adesc(t1), coq_adesc(t2), coq_val(v),
             a, coq_cto(c1), coq_cto(c2), ser)
@@ -780,6 +848,8 @@ def case_term(c, out):
 
 
 def nontrivial(c, out):
+    if c[0] == "ty":
+        return case_line(c) if " ; TY " in out else None
     if c[0] == "ev":
         if out.startswith("A 1") and c[4] != c[5] and " D d " in out:
             return case_line(c)
@@ -792,7 +862,9 @@ def nontrivial(c, out):
 def distribution(cases, outs):
     d = {}
     for c, o in zip(cases, outs):
-        if c[0] == "ev":
+        if c[0] == "ty":
+            k = "ty/%s:=%s/%s" % (TY_PAIRS[c[1]][1], TY_PAIRS[c[1]][0], o.rsplit(" ; TY ", 1)[-1].split()[0])
+        elif c[0] == "ev":
             k = "ev/%s%s/xcdr%d/%s" % (c[4][1], c[5][1], c[1],
                                         "assignable" if o.startswith("A 1") else "rejected" if o.startswith("A 0") else "panic")
         else:
@@ -807,20 +879,25 @@ MANIFEST = {
              "model of C09. Covered exactly: top-level FINAL/APPENDABLE/MUTABLE structures whose members are "
              "primitives and (w)strings, not optional, distinct ids; appendable evolution (members appended by the "
              "writer or by the reader) in XCDR1/XCDR2, both byte orders; mutable evolution (members added, removed, "
-             "reordered) in XCDR2. Proved: every type object is assignable from itself (and the rules without the "
-             "equality shortcut accept T := T); whenever the code declares the reader type assignable from the writer "
-             "type, every writer sample decodes with the reader type into the writer's values for the common members "
-             "and defaults (absent or zero) for the rest; a positive decision implies equal member types on common "
-             "ids / a common prefix. The model is tied to the code by running the real TypeObject construction, the "
-             "real decision and the real serializer/deserializer on generated related type pairs and on hand-built "
-             "hostile type objects, comparing everything inside Coq and applying the oracle to the implementation's "
-             "outputs. Not covered (stated, not modelled): unions, optional members, collections, TryConstruct, "
-             "nested evolution."),
+             "reordered) in XCDR2. Proved: every type object is assignable from itself (also by the rules without the "
+             "equality shortcut); the decision never panics on supported type identifiers; on the family the decision "
+             "equals a declarative relation `evolves` (same names and types on corresponding members, a common member, "
+             "one-sided members neither key nor must-understand and not reusing a reader name) or the type objects are "
+             "equal; whenever the reader type is declared assignable from the writer type, every writer sample decodes "
+             "with the reader type into the writer's values for the common members and defaults (absent or zero) for "
+             "the rest; hence legitimate evolutions are accepted AND decode, and pairs whose common members differ in "
+             "type are rejected. The model is tied to the code by running the real TypeObject construction, the real "
+             "decision and the real serializer/deserializer on generated related type pairs and on hand-built hostile "
+             "type objects, comparing everything inside Coq and applying the oracle to the implementation's outputs. "
+             "Not covered (stated, not modelled): unions, optional members, collections, TryConstruct, nested "
+             "evolution, typed samples built from the decoded DynamicData."),
     "note": ("Trusted: Coq kernel + vm_compute; hand models AssignModel.v and XcdrModel.v (checked against the code on "
-             "every run); harness and comparator. Known findings: integers assignable from any hashed type, hashed "
-             "member types never compared, nested appendable DHEADER ignored, member ids compared as u16, todo!() "
-             "on TkNone/map/SCC/extended type identifiers. prevent_type_widening, force_type_validation and "
-             "TypeConsistencyKind are never read by the code (modelled as such)."),
-    "technique": "Coq proof (induction over member lists and over the XCDR2 parameter list) + differential "
-                 "correspondence with the oracle evaluated in Coq",
+             "every run); harness and comparator. Known findings (each with a Coq witness and a patch proposal): "
+             "integers assignable from any hashed type, hashed member types never compared, nested appendable DHEADER "
+             "ignored, member ids compared as u16, todo!() on TkNone/map/SCC/extended type identifiers, optional "
+             "mismatch accepted for FINAL/APPENDABLE. prevent_type_widening, force_type_validation and "
+             "TypeConsistencyKind are never read by the code (modelled as such). The integer-widening candidate D35 of "
+             "DESIGN.md is not present in this tree (proved: long := long long is rejected)."),
+    "technique": "Coq proof (induction over member lists and over the XCDR2 parameter list; boolean characterisation "
+                 "of the decision) + differential correspondence with the oracle evaluated in Coq",
 }
